@@ -177,7 +177,50 @@ def runBld : List String → Builder → List String → Option (List String)
       runBld ops b (o :: acc)
     | _ => some ["bad-op"]
 
+/-! #### committed-filter index -/
+
+/-- header of block `i` of a `cfidx` line: version 1 ‖ prev ‖ LE32(seed)×8 ‖ LE32(seed) ‖ bits ‖ LE32(i) -/
+def cfHeader (seed i : Nat) (prev : Bytes) : Bytes :=
+  leBytes 4 1 ++ prev ++ (List.replicate 8 (leBytes 4 seed)).flatten ++ leBytes 4 seed ++
+    leBytes 4 0x1d00ffff ++ leBytes 4 i
+
+structure CfBlock where
+  flag : String
+  outs : List (List Bytes)
+  prevs : List Bytes
+
+def parseCfBlock? (s : String) : Option CfBlock :=
+  match s.splitOn "/" with
+  | [flag, outs, prevs] =>
+    match (if outs == "!" then some [] else (outs.splitOn ";").mapM parseItems?), parseItems? prevs with
+    | some outs, some prevs => if flag == "n" ∨ flag == "z" ∨ flag == "o" then some ⟨flag, outs, prevs⟩ else none
+    | _, _ => none
+  | _ => none
+
+/-- connect the blocks in order; returns the index and the block hashes -/
+def cfRun (seed : Nat) : List CfBlock → Nat → Bytes → CfIndex → List Bytes → CfIndex × List Bytes
+  | [], _, _, idx, hs => (idx, hs.reverse)
+  | b :: bs, i, last, idx, hs =>
+    let prev := if b.flag == "z" then zeroHash else if b.flag == "o" then List.replicate 32 7 else last
+    let bh := dsha (cfHeader seed i prev)
+    let idx' := match idx.connect sip dsha bh prev b.outs b.prevs with
+      | some x => x
+      | none => idx
+    cfRun seed bs (i + 1) bh idx' (bh :: hs)
+
+def cfShow (idx : CfIndex) (h : Bytes) : String :=
+  match idx.lookup h with
+  | none => "f=- fh=- hd=-"
+  | some e => s!"f={listToHex e.filter} fh={listToHex e.filterHash} hd={listToHex e.header}"
+
 def handle : List String → String
+  | ["cfidx", seed, blocks, disc] =>
+    match seed.toNat?, (blocks.splitOn "|").mapM parseCfBlock?, disc.toNat? with
+    | some seed, some bs, some disc =>
+      let (idx, hs) := cfRun seed bs 0 zeroHash [] []
+      let idx := (hs.reverse.take disc).foldl (fun acc h => acc.disconnect h) idx
+      "|".intercalate ((hs ++ [List.replicate 32 9]).map (cfShow idx)) ++ " t1=err:type"
+    | _, _, _ => "bad-op"
   | ["bld", ctor, ops] =>
     match parseCtor? ctor with
     | none => "bad-op"
